@@ -856,7 +856,7 @@ class NullByteOrderer final {
   NullByteOrderer &operator=(const NullByteOrderer &other) = default;
 
   bool Ok() const { return buffer_.Ok(); }
-  ::std::size_t SizeInBytes() const { return Ok() ? 1 : 0; }
+  ::std::size_t SizeInBytes() const { return buffer_.SizeInBytes(); }
 
   template </**/ ::std::size_t kBits>
   typename LeastWidthInteger<kBits>::Unsigned ReadUInt() const {
